@@ -741,12 +741,18 @@ func capTails(s int) []int {
 			out = append(out, t)
 		}
 	}
+	if len(out) == 0 {
+		out = []int{0}
+	}
 	return out
 }
 
 // drainTo: one op that moves the cursor from pos so that `tail` bytes stay unread (total = retained length)
 func drainTo(kind string, variant, pos, total, tail int) string {
 	k := total - pos - tail
+	if k < 0 {
+		k = 0
+	}
 	switch variant % 4 {
 	case 0:
 		return fmt.Sprintf("read %d", k)
@@ -884,6 +890,11 @@ func capHistorySeq(c *hx.Ctx, kind string, allowMiB bool) string {
 		p.apply(op)
 		ops = append(ops, op)
 	}
+	// the probe runs the code under test: with a faulty implementation its figures may be anything; the generator must survive
+	st := func() (pos, total, unread, capacity int) {
+		pos, total, unread, capacity = p.state()
+		return max(pos, 0), max(total, 0), max(unread, 0), max(capacity, 0)
+	}
 	for cy, cycles := 0, c.Rng.Range(1, 3); cy < cycles; cy++ {
 		for k, m := 0, c.Rng.Range(1, 3); k < m; k++ {
 			sz := c.Rng.Pick(capSizes[:4])
@@ -899,7 +910,7 @@ func capHistorySeq(c *hx.Ctx, kind string, allowMiB bool) string {
 			}
 			do("write " + bigPayload(c, sz))
 		}
-		pos, total, unread, _ := p.state()
+		pos, total, unread, _ := st()
 		tail := c.Rng.Pick(capTails(unread))
 		if c.Rng.Intn(5) == 0 {
 			tail = c.Rng.Range(0, unread)
@@ -913,7 +924,7 @@ func capHistorySeq(c *hx.Ctx, kind string, allowMiB bool) string {
 		default:
 			c.Count("cap_history_random_tail_gt_16k")
 		}
-		pos, total, unread, capacity := p.state()
+		pos, total, unread, capacity := st()
 		switch r := c.Rng.Intn(20); {
 		case r < 10:
 			do("tidy")
@@ -931,11 +942,11 @@ func capHistorySeq(c *hx.Ctx, kind string, allowMiB bool) string {
 			do(fmt.Sprintf("wi32 %d", int32(c.Rng.U64())))
 		}
 		k := c.Rng.Range(2, 8)
-		if _, _, u, _ := p.state(); u > 16385 { // every observation renders all unread bytes (model run time)
+		if _, _, u, _ := st(); u > 16385 { // every observation renders all unread bytes (model run time)
 			k = c.Rng.Range(1, 3)
 		}
 		for ; k > 0; k-- {
-			pos, total, unread, _ = p.state()
+			pos, total, unread, _ = st()
 			switch r := c.Rng.Intn(20); {
 			case r < 7:
 				do("write " + randPayload(c, c.Rng.Pick([]int{1, 2, 3, 8, 30, 63, 64, 65, 200})))
@@ -956,7 +967,7 @@ func capHistorySeq(c *hx.Ctx, kind string, allowMiB bool) string {
 			}
 		}
 	}
-	_, _, unread, _ := p.state()
+	_, _, unread, _ := st()
 	do("tidy")
 	do(fmt.Sprintf("read %d", unread+1))
 	do("write 0102")
